@@ -1045,8 +1045,10 @@ static bool canResend(ssl_t *ssl)
 
     if (ssl->flags & SSL_FLAGS_SERVER)
     {
-        if (ssl->hsState == SSL_HS_FINISHED)
-            canSend = 1;
+        /* SSL_HS_FINISHED is a flight boundary for a resumed handshake only
+           (see below): in a full handshake the server is then in the middle
+           of the client's ClientKeyExchange/ChangeCipherSpec/Finished flight
+           and has not built its own ChangeCipherSpec flight yet. */
 
         if (ssl->hsState == SSL_HS_CLIENT_HELLO)
         {
